@@ -774,3 +774,201 @@ func patternExternal(name string) extFn {
 	}
 	return nil
 }
+
+// ---- encoding/json.Marshal modelled structurally from go/types ----
+
+func (ex *Exec) jsonEncode(out *[]value, t types.Type, v value) {
+	emit := func(s string) {
+		for i := 0; i < len(s); i++ {
+			*out = append(*out, s[i])
+		}
+	}
+	switch u := t.Underlying().(type) {
+	case *types.Basic:
+		switch x := v.(type) {
+		case string:
+			emit(strconv.Quote(x))
+		case symString:
+			emit("\"")
+			*out = append(*out, x.b...) // symbolic bytes are embedded as they are (no escaping)
+			emit("\"")
+		case bool:
+			emit(strconv.FormatBool(x))
+		case float64:
+			emit(strconv.FormatFloat(x, 'g', -1, 64))
+		case float32:
+			emit(strconv.FormatFloat(float64(x), 'g', -1, 32))
+		case sv:
+			emit("\"<sym>\"")
+		default:
+			if k, b, ok := intBits(v); ok {
+				if kindSigned(k) {
+					emit(strconv.FormatInt(int64(b), 10))
+				} else {
+					emit(strconv.FormatUint(b, 10))
+				}
+			} else {
+				unsupported("json.Marshal of %s", t)
+			}
+		}
+	case *types.Pointer:
+		p := v.(*value)
+		if p == nil {
+			emit("null")
+			return
+		}
+		ex.jsonEncode(out, u.Elem(), load(u.Elem(), p))
+	case *types.Struct:
+		st := v.(structure)
+		emit("{")
+		first := true
+		for i := 0; i < u.NumFields(); i++ {
+			f := u.Field(i)
+			if !f.Exported() {
+				continue
+			}
+			name := f.Name()
+			tag := reflectTag(u.Tag(i), "json")
+			omitempty := false
+			if tag != "" {
+				parts := strings.Split(tag, ",")
+				if parts[0] == "-" {
+					continue
+				}
+				if parts[0] != "" {
+					name = parts[0]
+				}
+				for _, p := range parts[1:] {
+					if p == "omitempty" {
+						omitempty = true
+					}
+				}
+			}
+			if omitempty {
+				if s, ok := st[i].(string); ok && s == "" {
+					continue
+				}
+				if p, ok := st[i].(*value); ok && p == nil {
+					continue
+				}
+			}
+			if !first {
+				emit(",")
+			}
+			first = false
+			emit(strconv.Quote(name) + ":")
+			ex.jsonEncode(out, f.Type(), st[i])
+		}
+		emit("}")
+	case *types.Slice:
+		s := v.(slice)
+		if s.isNil() {
+			emit("null")
+			return
+		}
+		emit("[")
+		for i := 0; i < s.len; i++ {
+			if i > 0 {
+				emit(",")
+			}
+			ex.jsonEncode(out, u.Elem(), s.get(i))
+		}
+		emit("]")
+	case *types.Map:
+		m := v.(*omap)
+		if m == nil {
+			emit("null")
+			return
+		}
+		emit("{")
+		first := true
+		for i := range m.keys {
+			if !m.live[i] {
+				continue
+			}
+			if !first {
+				emit(",")
+			}
+			first = false
+			ex.jsonEncode(out, u.Key(), m.keys[i])
+			emit(":")
+			ex.jsonEncode(out, u.Elem(), m.vals[i])
+		}
+		emit("}")
+	case *types.Interface:
+		i := v.(iface)
+		if i.t == nil {
+			emit("null")
+			return
+		}
+		ex.jsonEncode(out, i.t, i.v)
+	default:
+		unsupported("json.Marshal of %s", t)
+	}
+}
+
+func reflectTag(tag, key string) string {
+	for tag != "" {
+		i := 0
+		for i < len(tag) && tag[i] == ' ' {
+			i++
+		}
+		tag = tag[i:]
+		if tag == "" {
+			break
+		}
+		i = 0
+		for i < len(tag) && tag[i] > ' ' && tag[i] != ':' && tag[i] != '"' {
+			i++
+		}
+		if i == 0 || i+1 >= len(tag) || tag[i] != ':' || tag[i+1] != '"' {
+			break
+		}
+		name := tag[:i]
+		tag = tag[i+1:]
+		i = 1
+		for i < len(tag) && tag[i] != '"' {
+			if tag[i] == '\\' {
+				i++
+			}
+			i++
+		}
+		if i >= len(tag) {
+			break
+		}
+		q := tag[:i+1]
+		tag = tag[i+1:]
+		if name == key {
+			v, err := strconv.Unquote(q)
+			if err != nil {
+				return ""
+			}
+			return v
+		}
+	}
+	return ""
+}
+
+func init() {
+	externals["encoding/json.Marshal"] = func(ex *Exec, fr *frame, a []value) value {
+		i := a[0].(iface)
+		var out []value
+		if i.t == nil {
+			out = []value{uint8('n'), uint8('u'), uint8('l'), uint8('l')}
+		} else {
+			ex.jsonEncode(&out, i.t, i.v)
+		}
+		return tuple{mkSlice(out), nilErr()}
+	}
+	externals["runtime.ReadMemStats"] = func(ex *Exec, fr *frame, a []value) value {
+		p := a[0].(*value)
+		st := (*p).(structure)
+		t := ex.namedType("runtime", "MemStats")
+		st[fieldIndex(t, "Sys")] = uint64(64 << 20)
+		return nil
+	}
+	externals["runtime.Version"] = func(ex *Exec, fr *frame, a []value) value { return "go-verif" }
+	externals["(time.Time).Format"] = func(ex *Exec, fr *frame, a []value) value { return "2026-01-01T00:00:00Z" }
+	externals["(time.Time).UTC"] = func(ex *Exec, fr *frame, a []value) value { return a[0] }
+	externals["(time.Duration).String"] = func(ex *Exec, fr *frame, a []value) value { return "duration" }
+}
